@@ -16,6 +16,7 @@ def main():
     steps = []
     tmp = tempfile.mkdtemp()
     counter = [0]
+    held = {}
     if not req.get("late_import"):
         import maflib.header  # noqa  (the supported lists are computed when this module is imported)
     for o in req["ops"]:
@@ -69,6 +70,35 @@ def main():
                 sch = rd.scheme()
                 steps.append({"scheme": None if sch is None else sch.annotation_spec(), "n": n,
                               "errors": impl.errs_json(rd.validation_errors), "iter_exc": exc})
+            elif k == "keep":
+                # parse records (Strict) under the scheme the header names NOW and keep the record OBJECTS
+                from maflib.header import MafHeader
+                from maflib.record import MafRecord
+                from maflib.validation import ValidationStringency as VS
+                try:
+                    h = MafHeader.from_lines(o["header"], validation_stringency=VS.Strict)
+                    sch = h.scheme()
+                    held[o["slot"]] = [MafRecord.from_line(line, scheme=sch, validation_stringency=VS.Strict) for line in o["records"]]
+                    steps.append({"kept": len(held[o["slot"]]), "scheme": None if sch is None else sch.annotation_spec()})
+                except Exception as e:  # noqa
+                    steps.append({"exc": exc_name(e)})
+            elif k == "write_kept":
+                # a Strict writer opened NOW for the same header is offered the records kept earlier
+                from verif import impl
+                from maflib.header import MafHeader
+                from maflib.validation import ValidationStringency as VS
+                from maflib.writer import MafWriter
+                buf = impl.RecordingHandle()
+                try:
+                    h = MafHeader.from_lines(o["header"], validation_stringency=VS.Strict)
+                    w = MafWriter.from_fd(buf, h, validation_stringency=VS.Strict)
+                    for r in held.get(o["slot"], []):
+                        w += r
+                    w.close()
+                    body = [l for l in buf.text().split("\n")[:-1] if not l.startswith("#")][1:]
+                    steps.append({"ok": body == [str(r) for r in held.get(o["slot"], [])], "n": len(body)})
+                except Exception as e:  # noqa
+                    steps.append({"exc": exc_name(e)})
             elif k == "roundtrip":
                 # write records under a header naming the scheme (Strict), read the bytes back (Strict)
                 from verif import impl
